@@ -7,7 +7,11 @@
                    index-aligned).
  K4 DROP-ABORTS    dropping a Database handle with an open transaction reaches abort_active_transaction -> undo_write_entries.
  K5 ROLLBACK-UNDOES ROLLBACK and ROLLBACK TO both must-pass undo_write_entries before Ok.
-What the undo restores (index keys, row counts, HNSW) is NOT decided here.
+ K6 LOG-EVERY-WRITE every appender to the write log pushes on every path (or coalesces bounded by the innermost savepoint only).
+ K7 KEY-SUFFIX     (shared with C10 X4) functions building multi-column index keys consult IndexDef::is_unique.
+ K8 UNDO-REMOVES-NEW-KEYS  each index insert in undo_write_entry is paired with a delete on the same tree in the same loop.
+ K9 INDEX-VALUE    (shared with C10 X6) index entry values never derive from a column value.
+Row counts and HNSW state after rollback are NOT decided here.
 """
 import dmlrules, common
 from paths import must_pass, describe_path, call_named
@@ -82,3 +86,5 @@ def run(ctx):
     ctx.floor("K6.appenders", k6, 2)
     # shared with C10 X4: rollback / UPDATE / DELETE must address index entries under the key INSERT stored them
     dmlrules.index_key_suffix_rule(ctx, "K7.KEY-SUFFIX", dmlrules.KEY_SUFFIX_TOLERATED)
+    dmlrules.undo_removes_new_keys(ctx, "K8.UNDO-REMOVES-NEW-KEYS")
+    dmlrules.index_value_is_row_key(ctx, "K9.INDEX-VALUE")
